@@ -1,5 +1,5 @@
 """C16 — configuration files round-trip and migration to v2 preserves behaviour.
-Specs: specs/config/BufYAML.tla, Samples.tla, Migrate.tla."""
+Specs: specs/config/BufYAML.tla, Samples.tla, Migrate.tla, Lock.tla."""
 import vlib
 
 
@@ -7,6 +7,10 @@ def run(ctx):
     r1 = ctx.tlc_must_hold("config", "BufYAML", "BufYAML.cfg", emit_tags=("CASE",), constants={"Emit": "TRUE"}, timeout=6000, heap="8g")
     r2 = ctx.tlc_must_hold("config", "Samples", "Samples.cfg", emit_tags=("CASE",), constants={"MaxFeatures": 2 if ctx.quick else 3, "Emit": "TRUE"}, timeout=6000, heap="8g")
     r3 = ctx.tlc_must_hold("config", "Migrate", "Migrate.cfg", emit_tags=("CASE",), constants={"Emit": "TRUE"}, timeout=6000, heap="8g")
+    r4 = ctx.tlc_must_hold("config", "Lock", "Lock.cfg", emit_tags=("CASE",), constants={"MaxDeps": 2 if ctx.quick else 3, "Emit": "TRUE"}, timeout=6000, heap="8g")
+    locks = r4["emit"]["CASE"]
+    if len(locks) != r4["distinct"]:
+        raise vlib.Infra("emission incomplete (Lock)")
     y, s, m = r1["emit"]["CASE"], r2["emit"]["CASE"], r3["emit"]["CASE"]
     if not y or len(s) != r2["distinct"] or len(m) != r3["distinct"]:
         raise vlib.Infra("emission incomplete")
@@ -15,15 +19,16 @@ def run(ctx):
         c["modules"] = [c["modules"][k] for k in sorted(c["modules"])] if isinstance(c["modules"], dict) else c["modules"]
     samples = [{"kind": c["kind"].replace("_", "-"), "features": sorted(c["features"])} for c in s]
     negs = [ctx.vh("config-bufyaml", {"cases": y, "corrupt": True}), ctx.vh("config-samples", {"cases": samples[:5], "corrupt": True}),
-            ctx.vh("config-migrate", {"cases": m[:1], "corrupt": True})]
+            ctx.vh("config-migrate", {"cases": m[:1], "corrupt": True}), ctx.vh("config-lock", {"cases": locks, "corrupt": True})]
     if not all(n["violations"] for n in negs):
         raise vlib.Infra("negative control failed")
     ctx.add_result(ctx.vh("config-bufyaml", {"cases": y}, timeout=6000))
     ctx.add_result(ctx.vh("config-samples", {"cases": samples}, timeout=6000))
     ctx.add_result(ctx.vh("config-migrate", {"cases": m}, timeout=6000))
+    ctx.add_result(ctx.vh("config-lock", {"cases": locks}, timeout=6000))
     ctx.assumptions += [
-        "buf.yaml v2 documents are enumerated from module shapes and section shapes (not arbitrary YAML); buf.gen.yaml / buf.work.yaml documents are feature combinations of a fixed grammar; buf.lock is not enumerated here",
+        "buf.yaml v2 documents are enumerated from module shapes and section shapes (not arbitrary YAML); buf.gen.yaml / buf.work.yaml documents are feature combinations of a fixed grammar; buf.lock documents are version x <= 2 (3) dependency entries (3 names whose string order differs from their component order, commit present or missing, digest b4 / b5 / deprecated / missing) x plugin section shapes x legacy keys x digest resolver",
         "the oracle of a round trip is the reader itself (first read vs re-read) plus, for buf.yaml, the effective configuration computed by the specification",
         "migration is judged by observable behaviour (files built, lint annotations, configured breaking rules) before and after",
     ]
-    return vlib.finish(ctx, rule="every v2 buf.yaml of BufYAML.tla (module directories incl. '.' and overlapping ones, names, includes/excludes, per-module and top-level lint/breaking shapes incl. switched-off and ignore_only into the second module): reader = Effective, read-write-read, idempotent write; every feature combination (<=2/<=3) of buf.gen.yaml v1/v2 and buf.work.yaml: read-write-read on all accessors, idempotent write; every v1/v1beta1 workspace of Migrate.tla: behaviour before = after; distinct = documents / workspaces")
+    return vlib.finish(ctx, rule="every v2 buf.yaml of BufYAML.tla (module directories incl. '.' and overlapping ones, names, includes/excludes, per-module and top-level lint/breaking shapes incl. switched-off and ignore_only into the second module): reader = Effective, read-write-read, idempotent write; every feature combination (<=2/<=3) of buf.gen.yaml v1/v2 and buf.work.yaml: read-write-read on all accessors, idempotent write; every v1/v1beta1 workspace of Migrate.tla: behaviour before = after; every buf.lock document of Lock.tla: refused or read to exactly the pins of the specification in name order, write-read-write fixed point, legacy keys dropped, constructor agrees; distinct = documents / workspaces")
